@@ -572,14 +572,41 @@ func (nopHandler) HandleXMPP(xmlstream.TokenReadEncoder, *xml.StartElement) erro
 type iqResponder struct {
 	r xml.TokenReader
 	c chan xmlstream.TokenReadCloser
+	s *iqResponderState
 }
 
+type iqResponderState struct {
+	failed bool
+	once   sync.Once
+}
+
+// Token reads from the response.
+// If reading fails the response is over: it is closed on the spot and reports
+// io.EOF from then on.
+// Consumers that drain a response before closing it (such as
+// xmlstream.Iter.Close, which gives up without closing the reader when
+// draining fails) would otherwise never hand the stream back to the serve
+// loop, which runs into the same error, or skips the rest of the stanza, by
+// itself.
 func (r iqResponder) Token() (xml.Token, error) {
-	return r.r.Token()
+	if r.s.failed {
+		return nil, io.EOF
+	}
+	tok, err := r.r.Token()
+	if err != nil && err != io.EOF {
+		r.s.failed = true
+		/* #nosec */
+		r.Close()
+	}
+	return tok, err
 }
 
+// Close hands the stream back to the serve loop.
+// Calling it multiple times has no effect.
 func (r iqResponder) Close() error {
-	close(r.c)
+	r.s.once.Do(func() {
+		close(r.c)
+	})
 	return nil
 }
 
@@ -639,6 +666,7 @@ func handleInputStream(s *Session, handler Handler) (err error) {
 			case readerChan.c <- iqResponder{
 				r: xmlstream.Wrap(inner, start),
 				c: readerChan.c,
+				s: &iqResponderState{},
 			}:
 				verifhook.Yield("serve.handoff", id)
 				<-readerChan.c
